@@ -42,7 +42,7 @@ func (v *TestingVariables) Get(ctx *context.Context, scope context.Scope, name s
 			return nil, err
 		}
 	case TESTING_ORIGIN_HOST_HEADER:
-		if ctx.Backend == nil {
+		if ctx.Backend == nil || ctx.Backend.Value == nil {
 			return nil, errors.New("backend is not determined")
 		}
 		// Attempt to get dynamic backend host header
